@@ -12,14 +12,18 @@ _DISPATCH_NS = {}      # filled by register(): spec functions of the loaded cont
 
 
 def register(ns):
-    _DISPATCH_NS.update({k: v for k, v in ns.items() if callable(v)})
+    _DISPATCH_NS.update({k: v for k, v in ns.items() if callable(v) or k == 'DISPATCH_FALLBACK'})
 
 
 def _dispatch(name, recv, *args):
-    for c in type(recv).__mro__:
-        f = _DISPATCH_NS.get(f'{name}_{c.__name__}')
-        if f is not None:
-            return f(recv, *args)
+    fb = _DISPATCH_NS.get('DISPATCH_FALLBACK') or {}
+    nm = name
+    while nm is not None:
+        for c in type(recv).__mro__:
+            f = _DISPATCH_NS.get(f'{nm}_{c.__name__}')
+            if f is not None:
+                return f(recv, *args)
+        nm = fb.get(nm)
     f = _DISPATCH_NS.get(name + '_default')
     if f is not None:
         return f(recv, *args)
@@ -87,13 +91,59 @@ def realnum(v):
     return Fraction(v)
 
 
-def is_canonical_b64(s):
+def enum_owned(e, v):
+    return _enum_member(v) and v.enum is e
+
+
+def same_value(a, b):
+    return type(a) is type(b) and (a == b or (a != a and b != b))
+
+
+def on_grid(v, scale):
+    """v is a grid value n * scale (computed the way the code computes grid values)"""
+    return v == round(v / scale) * scale
+
+
+def as_float(v):
+    v = v.value if _enum_member(v) else v
+    return float(v)
+
+
+def is_valid_b64(s):
     if not isinstance(s, str):
         return False
     try:
-        return base64.b64encode(base64.b64decode(s, validate=True)).decode('ascii') == s
+        base64.b64decode(s, validate=True)
+        return True
     except Exception:
         return False
+
+
+def b64_bytes(s):
+    return base64.b64decode(s, validate=True)
+
+
+def mk_enum(e, name, code):
+    m = e[name]
+    return m if m.value == code else None
+
+
+def enum_wf(e):
+    return all(e[m.name] is m and e[m.value] is m for m in e.members)
+
+
+def enum_has_name(e, s): return isinstance(s, str) and any(m.name == s for m in e.members)
+def enum_code(e, s): return e[s].value
+def enum_has_code(e, i): return any(m.value == i for m in e.members)
+def enum_name(e, i): return [m.name for m in e.members if m.value == i][0]
+def seq_eq(a, b): return type(a) is type(b) and a == b
+def in_universe(v): return not isinstance(v, (set, frozenset, type)) and not is_obj(v)
+def is_wire(v):
+    if isinstance(v, list):
+        return all(is_wire(x) for x in v)
+    if isinstance(v, dict):
+        return all(isinstance(k, str) and is_wire(x) for k, x in v.items())
+    return v is None or isinstance(v, (bool, int, float, str))
 
 
 def b64_text(b):
